@@ -327,6 +327,8 @@ coap_uri_into_optlist(const coap_uri_t *uri, const coap_address_t *dst,
         /* add Uri-Host */
         optlist = coap_new_optlist(COAP_OPTION_URI_HOST, uri->host.length,
                                    uri->host.s);
+        if (!optlist)
+          return 0;
         if (!coap_host_is_unix_domain(&uri->host)) {
           coap_replace_percents(optlist);
           coap_replace_upper_lower(optlist);
@@ -357,11 +359,12 @@ coap_uri_into_optlist(const coap_uri_t *uri, const coap_address_t *dst,
     if (add_option) {
       uint8_t tbuf[4];
 
-      coap_insert_optlist(optlist_chain,
-                          coap_new_optlist(COAP_OPTION_URI_PORT,
-                                           coap_encode_var_safe(tbuf, 4,
-                                                                (uri->port & 0xffff)),
-                                           tbuf));
+      if (!coap_insert_optlist(optlist_chain,
+                               coap_new_optlist(COAP_OPTION_URI_PORT,
+                                                coap_encode_var_safe(tbuf, 4,
+                                                                     (uri->port & 0xffff)),
+                                                tbuf)))
+        return 0;
     }
   }
 
